@@ -6,9 +6,10 @@
 //	         independent reference parser (ref.go) says
 //	schedule JobSchedule / Schedule over multi-year windows in six zones compared,
 //	         minute by minute, with a reference matcher on civil-calendar arithmetic
-//	firing   jobs computed from the wall clock on a warm and on a freshly started
-//	         node; the (job, actionTime) pairs the scheduler produced must equal
-//	         the reference's for the minute boundaries that were crossed
+//	firing   jobs computed from the wall clock, added before and after the node's
+//	         first tick, enabled / disabled / removed across ticks; the (job,
+//	         actionTime) pairs the scheduler produced must equal the reference's
+//	         for the minute boundaries that were crossed (runs beside the others)
 package main
 
 import (
@@ -730,7 +731,9 @@ func runSchedule(node *hk.HNode) {
 	for k := 0; k < runtime.NumCPU(); k++ {
 		wn := node
 		if k > 0 {
+			gateEnter() // no node start / stop while the firing family watches a boundary
 			n, err := hk.StartNode(hk.NodeCfg{Name: hk.UniqueName("c20w"), Network: false})
+			gateLeave()
 			if err != nil {
 				continue
 			}
@@ -740,10 +743,14 @@ func runSchedule(node *hk.HNode) {
 		go func() {
 			defer wg.Done()
 			for f := range ch {
+				gateEnter()
 				f(wn)
+				gateLeave()
 			}
 			if wn != node {
+				gateEnter()
 				wn.StopForce()
+				gateLeave()
 			}
 		}()
 	}
@@ -775,7 +782,7 @@ func main() {
 	t0 := time.Now()
 	hk.Rule("grammar: seeded valid specs (every field form per field directed, lists <= 3, L, dL, d#n, steps, ranges, macros, blank/tab runs) and malformed ones by mutation class; non-trivial iff >= 2 restricted fields (valid) or a malformed class (invalid); " +
 		"schedule: spec x zone, JobSchedule/Schedule compared minute by minute with the civil-calendar reference over windows containing every month end of 2024-2027, Feb 29, +-8 days around every offset change and one whole year (quick) or the whole years 2024-2027 in 10 zones (thorough); non-trivial iff >= 2 restricted fields and >= 1 run time was reported; distinct = field forms x zone; " +
-		"firing: wall-clock derived jobs on a warm and a fresh node, non-trivial iff >= 1 minute boundary was crossed and observed")
+		"firing: wall-clock derived jobs added before the node's first tick (batch fresh) and after it (batch warm), state changes across ticks, two (quick) or three (thorough) minute boundaries; non-trivial iff >= 1 boundary of the job's batch was crossed and observed")
 	hk.Assume("a local wall-clock minute that does not exist (spring-forward gap) never matches; a local minute that occurs twice (fall-back overlap) is not judged at either instant: crontab implementations differ there (Vixie runs fixed-time jobs once, wildcard jobs twice)")
 	hk.Assume("weekday numbers 1..7 with 7 = Sunday as documented in node/cron_parse.go; weekday 0, month/day names, steps on month ranges / weekdays, steps larger than the field, zero padded numbers, n/step, ?, W, L-n, @yearly & co are not judged (recorded in the note undecided_specs_implementation_choice)")
 	hk.Assume("a day field made of */n together with a restricted weekday is not generated: Vixie cron treats it as a star field (AND), the OR rule applies otherwise")
@@ -789,13 +796,6 @@ func main() {
 		fmt.Fprintln(os.Stderr, err)
 		os.Exit(3)
 	}
-	// the warm node of the firing family starts first so that its first tick is long past when the family runs
-	warm, err := hk.StartNode(hk.NodeCfg{Name: hk.UniqueName("c20warm"), Network: false})
-	if err != nil {
-		fmt.Fprintln(os.Stderr, "start node:", err)
-		os.Exit(3)
-	}
-	prepWarm(warm)
 	work, err := hk.StartNode(hk.NodeCfg{Name: hk.UniqueName("c20"), Network: false})
 	if err != nil {
 		fmt.Fprintln(os.Stderr, "start node:", err)
@@ -806,20 +806,31 @@ func main() {
 	if phases == "" {
 		phases = "gsf"
 	}
+	// the firing family runs beside the other two (they share the waiting for the minute boundaries)
+	fdone := make(chan float64, 1)
+	if strings.Contains(phases, "f") {
+		go func() {
+			tf := time.Now()
+			runFiring()
+			fdone <- time.Since(tf).Seconds()
+		}()
+	} else {
+		fdone <- 0
+	}
 	if strings.Contains(phases, "g") {
+		gateEnter()
 		runGrammar(work)
+		gateLeave()
 	}
 	tg := time.Now()
 	if strings.Contains(phases, "s") {
 		runSchedule(work)
 	}
 	ts := time.Now()
-	if strings.Contains(phases, "f") {
-		runFiring(warm)
-	}
-	hk.Note("wall_seconds", map[string]any{"grammar": tg.Sub(t0).Seconds(), "schedule": ts.Sub(tg).Seconds(), "firing": time.Since(ts).Seconds()})
-	if n := len(work.Cap.PanicLines()) + len(warm.Cap.PanicLines()); n > 0 {
-		hk.Note("framework_panic_log_lines", append(work.Cap.PanicLines(), warm.Cap.PanicLines()...))
+	fsec := <-fdone
+	hk.Note("wall_seconds", map[string]any{"grammar": tg.Sub(t0).Seconds(), "schedule": ts.Sub(tg).Seconds(), "firing_parallel": fsec, "total": time.Since(t0).Seconds()})
+	if n := len(work.Cap.PanicLines()); n > 0 {
+		hk.Note("framework_panic_log_lines", work.Cap.PanicLines())
 	}
 	os.Stdout.Sync()
 	os.Exit(0)
